@@ -365,7 +365,7 @@ func c03Parked(p *Program, r *Report) {
 	term, _ := lc.effectOnPaths("Resume")
 	r.Check(term, "terminated actor resumes its mailbox", lc.Cleanup.Pos(), "on every terminating path the cleanup step calls Mailbox.Resume(): mail parked behind a supervision pause drains to dead letters instead of being silently kept")
 	// restart failure (zombie) path resumes
-	g := p.ig(lc.HandleRestart)
+	g := p.igxSkip(lc.HandleRestart, lc.roleFuncs(p))
 	zs := nodesWhere(g, func(in ssa.Instruction) bool {
 		st, ok := in.(*ssa.Store)
 		if !ok {
@@ -477,6 +477,70 @@ func c03CacheSound(p *Program, r *Report) {
 		return
 	}
 	n := 0
+	const msg = "the mailbox memoised in a reference is the mailbox of the actor context found registered at the reference's path, a dead-lettering mailbox, or the root's own for the root's path — never the mailbox of an actor the reference does not name (mail through the reference would be consumed by that actor)"
+	// evalSite judges one write: in function fn (graph g) at node i, of the mailbox value(s) given by cands
+	evalSite := func(fn *ssa.Function, g *IG, i int, cands func(mc *mbClassifier) ([]mbCand, string)) (bool, string) {
+		// edges on which a registry value was asserted to be an actor context
+		ctxE := map[edge]bool{}
+		var asserted []ssa.Value
+		for _, ifi := range ifsOf(fn) {
+			for _, outcome := range []bool{true, false} {
+				fc, okf := condFact(ifi.Cond, outcome)
+				if !okf || !fc.Bool || fc.Op != token.NEQ {
+					continue
+				}
+				ex, isEx := fc.X.(*ssa.Extract)
+				if !isEx || ex.Index != 1 {
+					continue
+				}
+				ta, isTA := ex.Tuple.(*ssa.TypeAssert)
+				if !isTA || namedOf(ta.AssertedType) != lc.Ctx || !anyContains(p.origins(ta.X), "(sync.Map).Load") {
+					continue
+				}
+				ctxE[g.branchEdge(ifi, outcome)] = true
+				asserted = append(asserted, ta)
+			}
+		}
+		mc := &mbClassifier{p: p, g: g, lc: lc, ctxE: ctxE, asserted: asserted, ownPath: ownPathEdges(p, g)}
+		cs, why := cands(mc)
+		good := len(cs) > 0 && why == ""
+		for _, cd := range cs {
+			if ok, what := mc.classify(cd.v, cd.at); !ok {
+				good = false
+				why += " (may hold " + what + ")"
+			}
+		}
+		return good, why
+	}
+	// the values a local cell can hold at node i (every assignment that reaches i; the cell is assigned on every path)
+	cellCands := func(g *IG, al *ssa.Alloc, i int) func(mc *mbClassifier) ([]mbCand, string) {
+		return func(mc *mbClassifier) ([]mbCand, string) {
+			stores := map[int]bool{}
+			for _, ref := range *al.Referrers() {
+				if st, isSt := ref.(*ssa.Store); isSt && st.Addr == ssa.Value(al) {
+					stores[g.Idx[st]] = true
+				}
+			}
+			why := ""
+			if len(stores) == 0 || g.Reach(g.entry(), stores, nil)[i] {
+				why = " (the cell may be unassigned at the write)"
+			}
+			var out []mbCand
+			for sn := range stores {
+				others := map[int]bool{}
+				for o := range stores {
+					if o != sn {
+						others[o] = true
+					}
+				}
+				if sn != i && !g.ReachAfter(sn, others, nil)[i] {
+					continue // overwritten before the write
+				}
+				out = append(out, mbCand{g.Nodes[sn].(*ssa.Store).Val, sn})
+			}
+			return out, why
+		}
+	}
 	for _, fn := range p.Mod {
 		g := p.ig(fn)
 		for i, in := range g.Nodes {
@@ -493,61 +557,36 @@ func c03CacheSound(p *Program, r *Report) {
 			}
 			n++
 			newV := c.Call.Args[len(c.Call.Args)-1]
-			// edges on which a registry value was asserted to be an actor context
-			ctxE := map[edge]bool{}
-			var asserted []ssa.Value
-			for _, ifi := range ifsOf(fn) {
-				for _, outcome := range []bool{true, false} {
-					fc, okf := condFact(ifi.Cond, outcome)
-					if !okf || !fc.Bool || fc.Op != token.NEQ {
-						continue
-					}
-					ex, isEx := fc.X.(*ssa.Extract)
-					if !isEx || ex.Index != 1 {
-						continue
-					}
-					ta, isTA := ex.Tuple.(*ssa.TypeAssert)
-					if !isTA || namedOf(ta.AssertedType) != lc.Ctx || !anyContains(p.origins(ta.X), "(sync.Map).Load") {
-						continue
-					}
-					ctxE[g.branchEdge(ifi, outcome)] = true
-					asserted = append(asserted, ta)
-				}
+			al, isAl := strip(newV).(*ssa.Alloc)
+			if !isAl {
+				r.Check(false, "mailbox cache written in "+fnName(fn), c.Pos(), msg+" (the stored pointer is not a local cell)")
+				continue
 			}
-			// the cached pointer designates a local cell; every value the cell can hold at the write is acceptable: the mailbox of
-			// the context found registered (stored under the found edge), a dead-lettering mailbox, or the root's own for the
-			// root's own path — and the cell has been assigned on every path to the write
-			mc := &mbClassifier{p: p, g: g, lc: lc, ctxE: ctxE, asserted: asserted, ownPath: ownPathEdges(p, g)}
-			good := false
-			why := ""
-			if al, isAl := strip(newV).(*ssa.Alloc); isAl {
-				stores := map[int]bool{}
-				for _, ref := range *al.Referrers() {
-					if st, isSt := ref.(*ssa.Store); isSt && st.Addr == ssa.Value(al) {
-						stores[g.Idx[st]] = true
-					}
-				}
-				good = len(stores) > 0 && !g.Reach(g.entry(), stores, nil)[i]
-				if !good {
-					why = " (the cell may be unassigned at the write)"
-				}
-				for sn := range stores {
-					others := map[int]bool{}
-					for o := range stores {
-						if o != sn {
-							others[o] = true
+			// a setter: the cell is the spilled parameter of a small method of the reference type — judge every call of it
+			if prm, k := spilledParamIndex(al, fn); prm != nil {
+				sites := 0
+				for _, caller := range p.Mod {
+					cg := p.ig(caller)
+					for ci, cin := range cg.Nodes {
+						cc, isC := cin.(*ssa.Call)
+						if !isC || cc.Call.StaticCallee() != fn || k >= len(cc.Call.Args) {
+							continue
 						}
-					}
-					if sn != i && !g.ReachAfter(sn, others, nil)[i] {
-						continue // overwritten before the write
-					}
-					if ok, what := mc.classify(g.Nodes[sn].(*ssa.Store).Val, sn); !ok {
-						good = false
-						why += " (may hold " + what + ")"
+						sites++
+						arg := cc.Call.Args[k]
+						good, why := evalSite(caller, cg, ci, func(mc *mbClassifier) ([]mbCand, string) {
+							return mc.valuesAt(arg, ci, nil), ""
+						})
+						r.Check(good, "mailbox cache written in "+fnName(caller)+" (through "+fn.Name()+")", cc.Pos(), msg+why)
 					}
 				}
+				if sites == 0 {
+					r.Lookup("mailbox cache setter "+fnName(fn), c.Pos(), "the setter has no caller in the module")
+				}
+				continue
 			}
-			r.Check(good, "mailbox cache written in "+fnName(fn), c.Pos(), "the mailbox memoised in a reference is the mailbox of the actor context found registered at the reference's path, a dead-lettering mailbox, or the root's own for the root's path — never the mailbox of an actor the reference does not name (mail through the reference would be consumed by that actor)"+why)
+			good, why := evalSite(fn, g, i, cellCands(g, al, i))
+			r.Check(good, "mailbox cache written in "+fnName(fn), c.Pos(), msg+why)
 		}
 	}
 	if n == 0 {
@@ -739,7 +778,7 @@ func ownPathEdges(p *Program, g *IG) map[edge]bool {
 	for _, ifi := range g.ifs() {
 		for _, outcome := range []bool{true, false} {
 			f, ok := condFact(ifi.Cond, outcome)
-			if ok && f.Y != nil && f.Op == token.EQL && anyContains(p.origins(f.X), "GetPath") && anyContains(p.origins(f.Y), "GetPath") {
+			if ok && f.Y != nil && f.Op == token.EQL && p.viaRefAccessor(p.lifecycle(), f.X, "GetPath") && p.viaRefAccessor(p.lifecycle(), f.Y, "GetPath") {
 				out[g.branchEdge(ifi, outcome)] = true
 			}
 		}
@@ -844,4 +883,31 @@ func (mc *mbClassifier) classify(v ssa.Value, at int) (bool, string) {
 		return true, "the root's mailbox, on the edge where the reference names the root's own path"
 	}
 	return false, strings.Join(p.origins(v), " | ")
+}
+
+
+// spilledParamIndex: al is the local cell of parameter #k of fn (stored once, with that parameter).
+func spilledParamIndex(al *ssa.Alloc, fn *ssa.Function) (*ssa.Parameter, int) {
+	if al.Referrers() == nil {
+		return nil, -1
+	}
+	var prm *ssa.Parameter
+	for _, ref := range *al.Referrers() {
+		if st, ok := ref.(*ssa.Store); ok && st.Addr == ssa.Value(al) {
+			q, isP := st.Val.(*ssa.Parameter)
+			if !isP || prm != nil {
+				return nil, -1
+			}
+			prm = q
+		}
+	}
+	if prm == nil {
+		return nil, -1
+	}
+	for k, q := range fn.Params {
+		if q == prm {
+			return prm, k
+		}
+	}
+	return nil, -1
 }
